@@ -55,7 +55,7 @@ def generate(rng, tier, index):
     if integ in ("whfast", "saba"):
         o["ri_%s.keep_unsynchronized" % integ] = c.choice([0, 1, 1])
     cfg["opts"] = o
-    cfg["alloc"] = c.choice([1, 2])
+    cfg["alloc"] = c.choice([1, 2, 3])
     pt = rng.derive("ptm")
     if integ in ("whfast", "saba", "mercurius") and not o.get("ri_%s.keep_unsynchronized" % integ) and pt.chance(0.3):
         # a user callback that edits velocities between steps: the library synchronises before it and has to re-derive its cached
